@@ -105,6 +105,15 @@ void oracle_start() {
   if (p < 0) { perror("fork"); exit(2); }
   if (p == 0) {
     close(a[1]); close(b[0]);
+    // The twins may be computed by another build flavour of the same sources (VSIM_ORACLE_EXE, normally the
+    // plain -O2 binary): forking an ASan process per query is an order of magnitude more expensive.
+    const char *exe = getenv("VSIM_ORACLE_EXE");
+    if (exe && *exe) {
+      dup2(a[0], 0);
+      dup2(b[1], 1);
+      execl(exe, exe, "--oracle-server", (char *)nullptr);
+      _exit(73);
+    }
     server_loop(a[0], b[1]);
   }
   close(a[0]); close(b[1]);
@@ -113,6 +122,8 @@ void oracle_start() {
   g_memo = new std::unordered_map<std::string, std::string>();
   signal(SIGPIPE, SIG_IGN);
 }
+
+void oracle_serve_stdio() { server_loop(0, 1); }
 
 void oracle_stop() {
   if (g_server <= 0) return;
